@@ -47,7 +47,7 @@ func newHTTPRunner() *httpRunner {
 	srv.Start()
 	r := hlib.NewRand(7)
 	return &httpRunner{h: h, srv: srv, client: &http.Client{Timeout: stepTimeout},
-		probe: map[string][]byte{"raw": rawMessage(r), "event": eventMessage(r)}}
+		probe: map[string][]byte{"raw": rawMessage(r), "event": plainEvent()}}
 }
 
 func (hr *httpRunner) close() { hr.srv.Close() }
@@ -193,4 +193,14 @@ func (hr *httpRunner) run(in input) hlib.Case {
 	}
 	c.Nontrivial = len(body) > 0 && (status == 202 || zok || lok || enc == "" || enc == "identity")
 	return c
+}
+
+// plainEvent is the probe sent after every case: an event with declared enum values only, so
+// that a failure of the probe is never the probe's own doing.
+func plainEvent() []byte {
+	b, err := proto.Marshal(&pb.EventV2{Title: "probe", Text: "still alive", Hostname: "h", Priority: pb.EventV2_Low, Type: pb.EventV2_Warning})
+	if err != nil {
+		panic(err)
+	}
+	return b
 }
